@@ -1,3 +1,164 @@
 import Srctools.Wire
-/-! stub driver (echo) — replaced when the property's model exists. -/
-def main : IO Unit := Wire.main fun j => pure j
+import Srctools.Model.C13
+/-! Driver for the VPK model (C13).
+requests:
+  {"op":"run","single":b,"ops":[op…]}   → {"obs":[result…]}      (one result per operation)
+      op: ["open",mode,limit|null] ["new",name] ["add",name,data,idx|null] ["write",name,data,idx|null]
+          ["del",name] ["flush"] ["has",name] ["check"] ["plant","hex"]
+      name: ["s",[cp…]] | ["p",[cp…],[cp…]] | ["t",[cp…],[cp…],[cp…]]
+      data: ["g",seed,size] | ["x","hex"]
+      result: "ok" | "yes" | "no" | error code | observation object (for "check")
+  {"op":"decode","hex":"…"}             → {"err":code} | {"version":n,"entries":[…],"footer":[len,crc]}
+  {"op":"parts","name":name}            → {"parts":[[cp…],[cp…],[cp…]]}
+-/
+open C13
+open Lean (Json JsonNumber)
+
+/-! real CRC-32 (zlib polynomial), table driven -/
+def crcTable : Array UInt32 := Id.run do
+  let mut t : Array UInt32 := Array.mkEmpty 256
+  for n in [0:256] do
+    let mut c : UInt32 := n.toUInt32
+    for _ in [0:8] do
+      c := if c &&& 1 != 0 then (c >>> 1) ^^^ 0xEDB88320 else c >>> 1
+    t := t.push c
+  return t
+
+def crc32 (bs : List Nat) : Nat :=
+  let c := bs.foldl (fun (c : UInt32) b =>
+    crcTable[((c ^^^ b.toUInt32) &&& 0xFF).toNat]! ^^^ (c >>> 8)) 0xFFFFFFFF
+  (c ^^^ 0xFFFFFFFF).toNat
+
+def genBytes (seed size : Nat) : List Nat :=
+  (List.range size).map fun i => ((i * i + seed * (2 * i + 1)) / 4) % 256
+
+def hexVal (c : Char) : Nat :=
+  if '0' ≤ c ∧ c ≤ '9' then c.toNat - 48
+  else if 'a' ≤ c ∧ c ≤ 'f' then c.toNat - 87
+  else if 'A' ≤ c ∧ c ≤ 'F' then c.toNat - 55 else 0
+
+def unhex (s : String) : List Nat :=
+  let rec go : List Char → List Nat → List Nat
+    | a :: b :: rest, acc => go rest ((hexVal a * 16 + hexVal b) :: acc)
+    | _, acc => acc.reverse
+  go s.toList []
+
+def num (n : Nat) : Json := Json.num (JsonNumber.fromNat n)
+def digest (b : List Nat) : Json := Json.arr #[num b.length, num (crc32 b)]
+
+def errCode : Err → String
+  | .readonly => "readonly" | .nonascii => "nonascii" | .exists => "exists" | .missing => "missing"
+  | .nofile => "nofile" | .struct => "struct" | .v2 => "v2" | .badsig => "badsig"
+  | .badversion => "badversion" | .badterm => "badterm" | .eof => "exc:Exception" | .nohandle => "nohandle"
+
+def optNat (j : Json) : Except String (Option Nat) :=
+  if j.isNull then pure none else do pure (some (← j.getNat?))
+
+def nameOf (j : Json) : Except String Name := do
+  let a ← j.getArr?
+  let k ← (a[0]!).getStr?
+  match k with
+  | "s" => pure (.str (← Wire.natList a[1]!))
+  | "p" => pure (.pair (← Wire.natList a[1]!) (← Wire.natList a[2]!))
+  | "t" => pure (.triple (← Wire.natList a[1]!) (← Wire.natList a[2]!) (← Wire.natList a[3]!))
+  | _ => throw s!"bad name kind {k}"
+
+def dataOf (j : Json) : Except String (List Nat) := do
+  let a ← j.getArr?
+  let k ← (a[0]!).getStr?
+  match k with
+  | "g" => pure (genBytes (← (a[1]!).getNat?) (← (a[2]!).getNat?))
+  | "x" => pure (unhex (← (a[1]!).getStr?))
+  | _ => throw s!"bad data kind {k}"
+
+def modeOf (s : String) : Except String Mode :=
+  match s with
+  | "r" => pure .r | "w" => pure .w | "a" => pure .a
+  | _ => throw s!"bad mode {s}"
+
+def strLe (a b : Str) : Bool := !strLt b a
+
+def keyLe (a b : Key) : Bool :=
+  if a.dir ≠ b.dir then strLt a.dir b.dir
+  else if a.name ≠ b.name then strLt a.name b.name
+  else strLe a.ext b.ext
+
+def resJson : Res → Json
+  | .ok => Json.str "ok" | .yes => Json.str "yes" | .no => Json.str "no"
+  | .err e => Json.str (errCode e)
+
+def observe (w : World) : Json :=
+  match w.vpk with
+  | none => Json.mkObj [("nohandle", Json.bool true)]
+  | some v =>
+    let ents := (v.tree.entries.toArray.qsort (fun a b => keyLe a.1 b.1 && a.1 ≠ b.1)).toList
+    let reads := ents.map fun (_, i) =>
+      match readInfo w.archs v.footer i with
+      | .ok d => digest d
+      | .error e => Json.str (errCode e)
+    let ver := match verifyAll crc32 w.archs v.footer v.tree.entries with
+      | .ok b => Json.bool b
+      | .error e => Json.str (errCode e)
+    let names := (ents.map fun (k, _) => joinFileParts k).toArray.qsort (fun a b => strLt a b)
+    let archs := (w.archs.toArray.qsort (fun a b => a.1 < b.1)).toList
+    Json.mkObj [
+      ("triples", Json.arr (ents.map fun (k, _) =>
+          Json.arr #[Wire.ofNatList k.dir, Wire.ofNatList k.name, Wire.ofNatList k.ext]).toArray),
+      ("filenames", Json.arr (names.map Wire.ofNatList)),
+      ("reads", Json.arr reads.toArray),
+      ("verify", ver),
+      ("len", num ents.length),
+      ("dirfile", match w.dirFile with | none => Json.null | some b => digest b),
+      ("arch", Json.arr (archs.map fun (i, b) => Json.arr #[num i, digest b]).toArray)]
+
+def runOps (single : Bool) (ops : List Json) : Except String (List Json) := do
+  let mut w := World.init single
+  let mut out : Array Json := #[]
+  for j in ops do
+    let a ← j.getArr?
+    let k ← (a[0]!).getStr?
+    if k == "check" then
+      out := out.push (observe w)
+    else if k == "plant" then
+      w := { w with dirFile := some (unhex (← (a[1]!).getStr?)), vpk := none }
+      out := out.push (Json.str "ok")
+    else
+      let op : Op ← match k with
+        | "open" => do pure (Op.openVpk (← modeOf (← (a[1]!).getStr?)) (← optNat a[2]!))
+        | "new" => do pure (Op.newFile (← nameOf a[1]!))
+        | "add" => do pure (Op.addFile (← nameOf a[1]!) (← dataOf a[2]!) (← optNat a[3]!))
+        | "write" => do pure (Op.write (← nameOf a[1]!) (← dataOf a[2]!) (← optNat a[3]!))
+        | "del" => do pure (Op.del (← nameOf a[1]!))
+        | "flush" => pure Op.flush
+        | "has" => do pure (Op.has (← nameOf a[1]!))
+        | _ => throw s!"bad op {k}"
+      let (w', r) := step crc32 w op
+      w := w'
+      out := out.push (resJson r)
+  pure out.toList
+
+def handle (j : Json) : Except String Json := do
+  let op ← j.getObjValAs? String "op"
+  match op with
+  | "run" =>
+    let single ← j.getObjValAs? Bool "single"
+    let ops ← (← j.getObjVal? "ops").getArr?
+    pure (Json.mkObj [("obs", Json.arr (← runOps single ops.toList).toArray)])
+  | "decode" =>
+    let b := unhex (← j.getObjValAs? String "hex")
+    match decodeDir b with
+    | .error e => pure (Json.mkObj [("err", Json.str (errCode e))])
+    | .ok l =>
+      pure (Json.mkObj [
+        ("version", num l.version),
+        ("entries", Json.arr (l.tree.entries.map fun (k, i) =>
+          Json.arr #[Wire.ofNatList k.ext, Wire.ofNatList k.dir, Wire.ofNatList k.name, num i.crc,
+            digest i.startData, (match i.archIndex with | none => Json.null | some n => num n),
+            num i.offset, num i.archLen]).toArray),
+        ("footer", digest l.footer)])
+  | "parts" =>
+    let k := getFileParts (← nameOf (← j.getObjVal? "name"))
+    pure (Json.mkObj [("parts", Json.arr #[Wire.ofNatList k.dir, Wire.ofNatList k.name, Wire.ofNatList k.ext])])
+  | _ => throw s!"unknown op {op}"
+
+def main : IO Unit := Wire.main handle
